@@ -92,6 +92,22 @@ def run_prop(prop, tier):
         wf.run_noformat_oracle(runs, model, bres, chk)
     if prop == 'C08':
         rewrite_stream(chk, model, bres, tier)
+    if prop in ('C03', 'C05', 'C16'):
+        # objects renamed / given another origin after a first write, then the same DLISFile written again: the second
+        # file is held against the changed specification by the same oracles
+        rk = {'no_format', 'zone', 'axis'} if prop == 'C16' else None
+        rr = [r for r in wf.rewrite_runs(prop, tier, model, bres, chk, 40, 400, kinds=rk)
+              if bres.ok and wf.oracle_readable(r, chk, prop.lower() + '-rewrite')]
+        before = len(chk.failures)
+        if prop == 'C05':
+            for r in rr:
+                wf.oracle_fidelity(r, chk)
+        elif prop == 'C03':
+            wf.run_frames_oracle(rr, model, bres, chk)
+        else:
+            wf.run_noformat_oracle(rr, model, bres, chk)
+        for f in chk.failures[before:]:
+            f['key'] = 'rewrite:' + f['key']
     return finish(chk, bres, cfg['theorems'], partial_note=cfg['note'])
 
 
